@@ -116,6 +116,25 @@ func (p *Path) strLen(s Str) *smt.Term {
 	if s.opq != nil {
 		return s.opq
 	}
+	if s.tok != nil && s.tok.Format == "%d" && s.tok.Arg != nil && !s.tok.Signed {
+		// decimal length of an unsigned number: fork over the digit count
+		n := s.tok.Arg
+		pow := new(big.Int).SetInt64(1)
+		for k := 1; k <= 20; k++ {
+			pow.Mul(pow, big.NewInt(10))
+			var c *smt.Term
+			if n.Sort.K == smt.SInt {
+				c = smt.ILt(n, smt.ConstInt(pow))
+			} else if pow.IsUint64() && pow.Uint64() <= mask64(n.Sort.W) {
+				c = smt.ULt(n, smt.ConstBV(n.Sort.W, pow.Uint64()))
+			} else {
+				c = smt.True
+			}
+			if p.branch(c) {
+				return intConst(int64(k))
+			}
+		}
+	}
 	if s.tok != nil || s.approx {
 		p.abortf("len of unmodelled string %s", s)
 	}
@@ -1051,4 +1070,11 @@ func (p *Path) toXF(v Value) XF {
 	}
 	p.abortf("Int back end: float operand is neither lowered nor an integer constant")
 	return XF{}
+}
+
+func mask64(w int) uint64 {
+	if w >= 64 {
+		return ^uint64(0)
+	}
+	return uint64(1)<<uint(w) - 1
 }
